@@ -357,6 +357,14 @@ func (n *normalizer) dropDeadLiterals(fd *ast.FuncDecl) bool {
 		}
 		return true
 	})
+	// variables the type-checked program of this round did use (so the zero count now is the effect of inlining, not
+	// an error of the source that the normal form would hide)
+	inlinedLits := map[types.Object]bool{}
+	for id, o := range n.info.Uses {
+		if id.Pos() >= fd.Pos() && id.End() <= fd.End() {
+			inlinedLits[o] = true
+		}
+	}
 	changed := false
 	var prune func(list []ast.Stmt) []ast.Stmt
 	prune = func(list []ast.Stmt) []ast.Stmt {
@@ -377,6 +385,18 @@ func (n *normalizer) dropDeadLiterals(fd *ast.FuncDecl) bool {
 									continue
 								}
 							}
+						}
+					}
+				}
+			}
+			// "x := func(..) {..}" written in the source, every call of which was inlined: nothing refers to x any more
+			// and the compiler would reject the unused variable (creating a function value has no effect)
+			if as, ok := list[i].(*ast.AssignStmt); ok && as.Tok == token.DEFINE && len(as.Lhs) == 1 && len(as.Rhs) == 1 {
+				if id, isID := as.Lhs[0].(*ast.Ident); isID && id.Name != "_" {
+					if _, isLit := ast.Unparen(as.Rhs[0]).(*ast.FuncLit); isLit {
+						if o := n.info.Defs[id]; o != nil && uses[o] == 0 && inlinedLits[o] {
+							changed = true
+							continue
 						}
 					}
 				}
@@ -405,6 +425,17 @@ func (n *normalizer) dropDeadLiterals(fd *ast.FuncDecl) bool {
 		return out
 	}
 	fd.Body.List = prune(fd.Body.List)
+	// the bodies of function literals (callbacks) are statement lists of their own
+	var lits []*ast.FuncLit
+	ast.Inspect(fd.Body, func(x ast.Node) bool {
+		if l, ok := x.(*ast.FuncLit); ok {
+			lits = append(lits, l)
+		}
+		return true
+	})
+	for _, l := range lits {
+		l.Body.List = prune(l.Body.List)
+	}
 	return changed
 }
 
